@@ -135,6 +135,35 @@ def validation_part(ctx):
         ctx.traces += 1
 
 
+def empty_second_part(ctx):
+    """An empty second collection is either refused (the statement lists empty input among the invalid arguments) or answered with
+    the empty result in the requested format - shape (len(seqs), 0), no triplets; both readings are accepted, nothing else."""
+    import pandas as pd
+    import pyrepseq.nn as nn
+    seqs = ["CASSLG", "CASSLE", "CAWSLG", "CASSL", "CAS"]
+    empties = {"list": [], "tuple": (), "ndarray": np.array([], dtype=object), "series": pd.Series([], dtype=object)}
+    conts = {"list": list(seqs), "ndarray": np.array(seqs, dtype=object), "series-string-index": pd.Series(seqs, index=list("vwxyz"))}
+    for name, fn in (("symdel", nn.symdel), ("nearest_neighbor", nn.nearest_neighbor)):
+        for ck, s1 in conts.items():
+            for ek, s2 in empties.items():
+                for out in OUTPUTS:
+                    for kw in ({}, {"max_edits": 2}, {"custom_distance": "hamming"}):
+                        ctx.case(dict(kind="empty_second", fn=name, container=ck, empty=ek, output=out, **kw), nontrivial=True)
+                        rp = dict(kind="empty_second", fn=name, container=ck, empty=ek, output=out, kw=kw)
+                        try:
+                            r = fn(s1, seqs2=s2, output_type=out, **kw)
+                        except Exception:      # noqa: BLE001
+                            continue             # refused: allowed
+                        if out == "triplets":
+                            ok, what = (len(list(r)) == 0), f"{list(r)[:3]}"
+                        else:
+                            ok, what = (hasattr(r, "shape") and tuple(r.shape) == (len(seqs), 0)), f"shape {getattr(r, 'shape', type(r).__name__)}"
+                        if not ok:
+                            ctx.violation(f"{name}/empty_second_collection/{out}", f"{name}({ck} of {len(seqs)}, seqs2=empty {ek}, output_type={out!r}, {kw}) "
+                                          f"returned {what}; want an error or the empty result of shape ({len(seqs)}, 0)", rp)
+    ctx.traces += 1
+
+
 def run(ctx):
     ctx.rule = ("spec->code: (a) every terminal behaviour of small NNSearch models is executed under 7 container kinds x 3 output types "
                 "and compared with the model's triplets and dense matrix; (b) every terminal state of InputCheck.tla (all vectors of "
@@ -156,6 +185,7 @@ def run(ctx):
                 ctx.traces += 1
     ctx.exhaustive = True
     validation_part(ctx)
+    empty_second_part(ctx)
     # recorded sessions with random variants
     sessions, sid = [], 0
     sub = "ACDHIY"
